@@ -171,11 +171,12 @@ func mustNetRule(text string, id int) *rules.NetworkRule {
 	return r
 }
 
-// stringStorage builds a storage from list texts with ids 1..n.
+// stringStorage builds a storage from list texts with ids 0..n-1 (id 0 and
+// offset 0 make the storage index 0, the value most easily mistaken for "unset").
 func stringStorage(lists ...string) *filterlist.RuleStorage {
 	var ls []filterlist.RuleList
 	for i, t := range lists {
-		ls = append(ls, &filterlist.StringRuleList{ID: i + 1, RulesText: t})
+		ls = append(ls, &filterlist.StringRuleList{ID: i, RulesText: t})
 	}
 	s, err := filterlist.NewRuleStorage(ls)
 	if err != nil {
